@@ -145,6 +145,9 @@ std::size_t session_t::read_data(const string& master_account)
     }
   }
 
+  std::size_t error_total = 0;
+  string      error_message;
+
   foreach (const path& pathname, HANDLER(file_).data_files) {
     if (pathname == "-" || pathname == "/dev/stdin") {
       // To avoid problems with stdin and pipes, etc., we read the entire
@@ -171,12 +174,21 @@ std::size_t session_t::read_data(const string& master_account)
     try {
       xact_count += journal->read(parsing_context, HANDLER(hashes_).hash_type);
     }
+    catch (const error_count& errors) {
+      // keep reading the remaining files, so that their invalid items are
+      // reported as well; the report is still not run
+      error_total  += errors.count;
+      error_message = errors.message;
+    }
     catch (...) {
       parsing_context.pop();
       throw;
     }
     parsing_context.pop();
   }
+
+  if (error_total > 0)
+    throw error_count(error_total, error_message);
 
   DEBUG("ledger.read", "xact_count [" << xact_count
         << "] == journal->xacts.size() [" << journal->xacts.size() << "]");
